@@ -94,12 +94,8 @@ impl SwiftField for Field25A {
     }
 
     fn to_swift_string(&self) -> String {
-        // Ensure account starts with '/' for SWIFT format
-        if self.account.starts_with('/') {
-            format!(":25A:{}", self.account)
-        } else {
-            format!(":25A:/{}", self.account)
-        }
+        // The account is stored without the format's '/' prefix
+        format!(":25A:/{}", self.account)
     }
 }
 
